@@ -186,12 +186,11 @@ Section Bridge.
     change (enumcls_self cls members all bv (s2p "_is_enum")) with (PBool true).
     change (enumcls_self cls members all bv (s2p "_valid_enum_values")) with (PList (map (member_val cls) members)).
     cbn [py_truthy bind]. rewrite setcomp_names, listcomp_names. cbn [bind].
-    cbn [py_in_dyn validate_weak]. unfold py_in_hashed, py_in_lit. rewrite hashable_eq.
-    destruct (py_hashable v) eqn:Hh; cbn [negb].
-    2:{ reflexivity. }
-    rewrite in_dedup.
-    destruct v as [|b|n|s|l|l|l|fr l|kv|c n y|c at'|tg r]; try discriminate Hh.
-    all: try (rewrite in_names_nonstr by (intros ?; discriminate)).
+    cbn [py_in_dyn validate_weak]. unfold py_in_hashed, py_in_lit.
+    (* only a str is looked up in the set of names (and a str is hashable) *)
+    destruct v as [|b|n|s|l|l|l|fr l|kv|c n y|c at'|tg r].
+    all: try (change (py_isinstance _ [K_str]) with false).
+    all: try (change (py_isinstance (PStr s) [K_str]) with true; cbn [py_hashable']; rewrite in_dedup).
     all: try (rewrite in_members_nonenum by (intros ? ? ?; discriminate)).
     all: try rewrite in_names_str.
     all: try rewrite in_members_enum.
@@ -227,11 +226,11 @@ Section Bridge.
     change (enumcls_self cls members all bv (s2p "_enum_class"))
       with (PDict (map (fun m => (PStr (fst m), member_val cls m)) all)).
     cbn [validate_weak vset py_truthy].
-    destruct (py_hashable v) eqn:Hh; cbn [negb bind]; [|reflexivity].
-    destruct v as [|b|n|s|l|l|l|fr l|kv|c n y|c at'|tg r]; try discriminate Hh; try reflexivity.
-    - (* str: converted to the member of that name *)
+    destruct v as [|b|n|s|l|l|l|fr l|kv|c n y|c at'|tg r]; try reflexivity.
+    - (* str (not an enum member): converted to the member of that name *)
       unfold alist_has. destruct (alist_get members s) as [x|] eqn:Hg; cbn [bind]; [|reflexivity].
-      change (py_isinstance (PStr s) [K_str]) with true. cbn [bind py_getitem_dyn].
+      change (py_isinstance (PStr s) [K_str]) with true.
+      cbn [py_is_enum_member py_and py_not negb bind py_getitem_dyn].
       unfold py_dict_getitem. cbn [py_hashable']. rewrite class_lookup, (Hsub _ _ Hg). reflexivity.
     - (* a member object is stored as it is *)
       destruct (pystr_eqb c cls && alist_has members n); reflexivity.
